@@ -1801,7 +1801,16 @@ class Interp:
         env2.update({"entry_" + p: v for p, v in (self.entry_env or {}).items()})
         fr = self.frames[-1].get("ref") or self.fnref
         for clause in clauses:
-            self.oblige("CALL", f"{name}#{k}: {clause}", self.spec_eval(clause, env2, fr), node.lineno)
+            try:
+                g = self.spec_eval(clause, env2, fr)
+            except Unsupported as e:
+                if "unknown name" in str(e):
+                    if _never_bound(self.fnref.node, str(e)):
+                        raise Unsupported(f"contract clause mentions a local the function no longer "
+                                          f"binds ({e}): {name}#{k}: {clause}")
+                    continue   # mentions a local that is not bound on this path
+                raise
+            self.oblige("CALL", f"{name}#{k}: {clause}", g, node.lineno)
 
     def apply_rely(self, ref, rl, node):
         """Callback reasoning (rely/guarantee, cut like a loop): the callee may run the local
